@@ -97,7 +97,7 @@ theorem pinv_of_tables {U : Universe} {s s' : St} (h : PInv U s) (hp : s'.procs 
   · intro t p; rw [hp, hs]; exact h.procsIff t p
   · rw [hs]; exact h.nodup
 
-theorem pinv_sameTables {U : Universe} {s s' : St} (h : PInv U s) (t : SameTables s s') : PInv U s' :=
+theorem pinv_sameTables {U : Universe} {s s' : St} (h : PInv U s) (t : SameTables U s s') : PInv U s' :=
   pinv_of_tables h t.procs t.sorted t.prio
 
 end Desper.World
